@@ -29,6 +29,9 @@ pub const DEF: PropDef = PropDef {
 };
 
 pub fn check_case(c: &PoolCase) -> Verdict {
+    if pool::exceeds_thread_capacity(c) {
+        return Verdict::Inconclusive("more threads than the scheduler has slots".into());
+    }
     let o = run_pool(c);
     match &o.report.failure {
         Some(Failure::Budget) => return Verdict::Inconclusive("step budget".into()),
@@ -76,12 +79,12 @@ pub fn check_case(c: &PoolCase) -> Verdict {
 
 fn groups(g: &mut Groups) {
     g.enumerate("bounded_schedules", c06::enumerated, true, check_case);
-    g.prop("random", 18_000, 600_000, || pool::pool_case(8, 5), check_case);
+    g.prop("random", 18_000, 1_800_000, || pool::pool_case(8, 5), check_case);
     // No drop at the end is not a leak: the workers are simply still waiting.
     g.prop(
         "stale_tokens",
         6_000,
-        200_000,
+        600_000,
         || pool::pool_case(5, 3).prop_map(|mut c| {
             for (i, b) in c.history.iter_mut().enumerate() {
                 b.stale_token = i % 2 == 0;
